@@ -131,6 +131,8 @@ for w, cmp_ in [(1, "s.in8 == -1"), (1, "s.in4a < -1"), (1, "s.in8 == ~0"), (1, 
 RAW.append(("tmp-backedge:0|s.in1", 8, ["t = 0", "for i in range(2):", "  {o} @= t", "  t = s.in1"]))
 RAW.append(("tmp-backedge:s.in4a|s.in8", 8, ["t = s.in4a", "for i in range(2):", "  {o} @= zext(t, 8)", "  t = s.in8"]))
 RAW.append(("tmp-ifexp-literals", 8, ["t = 1 if s.in1 else 200", "{o} @= t"]))
+for w, e in [(4, "1 if s.in1 else 200"), (4, "200 if s.in1 else 1"), (8, "1 if s.in1 else 200"), (4, "s.in4a + (1 if s.in1 else 200)"), (4, "1 if s.in1 else 9")]:
+  RAW.append((f"ifexp-literals:o{w}<-{e}", w, ["{o} @= " + e]))
 
 
 def block_src(k, text, form):
@@ -256,7 +258,9 @@ def block_cause(root):
     if isinstance(n, (bir.BinOp, bir.Compare, bir.UnaryOp, bir.IfExp)):
       # a conditional with one sized arm is typed by that arm (the int arm must fit): by itself it is not a computation on ints --
       # only a conditional between two ints is; an operation whose operand MAY be an int (the int arm of a conditional) is
-      if (int_valued(n.body) and int_valued(n.orelse)) if isinstance(n, bir.IfExp) else int_valued(n): found.add("implicit-int")
+      # (a conditional between two plain literals / int constants only SELECTS one of them: nothing is computed)
+      leaf = lambda x: isinstance(x, (bir.Number, bir.FreeVar, bir.LoopVar))
+      if (int_valued(n.body) and int_valued(n.orelse) and not (leaf(n.body) and leaf(n.orelse))) if isinstance(n, bir.IfExp) else int_valued(n): found.add("implicit-int")
       elif hasattr(n, "_value"): found.add("folded-constant")
     for f, val in vars(n).items():
       if f in ("ast", "Type"): continue
